@@ -6,6 +6,8 @@ PLAN = dict(
         step("heap-x86", "codegen-x86", "heap-x86", 150, 6000, shards_thorough=12, viol=r"class=heap-invariant"),
         step("heap-families-x86", "c10-x86", "c10-x86", 0, 0, viol=r"class=heap-invariant"),
         step("heapops-x86", "heapops-x86", "heapops-x86", 300, 6000, viol=r"class=heapops-mismatch"),
+        step("heaplock-x86", "codegen-x86", "heaplock-x86", 150, 6000, shards_thorough=12, viol=r"class=heap-lockstep"),
+        step("heaplock-families-x86", "c10-x86", "heaplock-x86", 0, 0, viol=r"class=heap-lockstep"),
     ],
     rule="(1) every program of the corpus (examples, testsuite, corpus/fun, corpus/c10) compiled by the real pipeline; the REAL x86-64 code is "
          "executed on the ISA model for 4 argument tuples (3 iteration counts for the loop families) in lockstep with the AxCut machine; at every "
